@@ -103,8 +103,10 @@ def behaviours(ctx, name, cfgpath, side, n, depth=60):
     return out
 
 
-_HK = {"ok1": ("ok", 1), "ok3": ("ok", 3), "ok99": ("ok", 99), "bad1": ("bad", 1), "bad3": ("bad", 3), "bad99": ("bad", 99),
-       "junk": ("junk", 0), "part": ("part", 0), "wd": ("wd", 0)}
+_HK = {"junk": ("junk", 0), "part": ("part", 0), "wd": ("wd", 0)}
+for _v in (0, 1, 2, 3, 4, 99):
+    _HK["ok%d" % _v] = ("ok", _v)
+    _HK["bad%d" % _v] = ("bad", _v)
 
 
 def L(ev, r="", k="", n=0, b=False):
@@ -187,6 +189,11 @@ def judge(ctx, sc, rr, side, peer="env"):
             dict(scenario=sc, stuck_detail=res.get("stuck_detail"), results=res.get("results"), last_events=(res.get("events") or [])[-12:]))
         return None
     if side == "client":
+        hk = [o.get("kind") for o in sc.get("ops", []) if o.get("op") == "env_hello"]
+        if hk and hk[0] not in ("ok1", "ok3") and (res["results"].get("#schema") or {}).get("st") == "ok":
+            # ReadSchema reports success although what it was sent is not an intact hello of a supported version
+            # carrying a usable schema
+            ctx.violation(dict(kind="handshake_accepted", hello=hk[0], part="hello"), dict(scenario=sc, results=res["results"]))
         for rid, e in res["results"].items():
             if rid != "#schema" and e["st"] != "none" and e["returns"] != 1:
                 ctx.violation(dict(kind="returns", n=min(e["returns"], 2), part="hello"), dict(scenario=sc, results=res["results"]))
